@@ -290,7 +290,7 @@ def fault_events(rng, rq, kt, fault, mode, delay=100, others=()):
     return Q.chunk(rng, data, mode, DTS)
 
 
-def scenario(rng, reqs, kt, n_req=1, force=None, tx_dt=0):
+def scenario(rng, reqs, kt, n_req=1, force=None, tx_dt=0, rqs=None):
     """A server configuration, a script and n_req requests. Returns dict."""
     retries = rng.choice([0, 0, 1, 2, 2, 3, 5, 10])
     delay = rng.choice([0, 1, 100, 100, 250, 1800, 5000])
@@ -298,7 +298,8 @@ def scenario(rng, reqs, kt, n_req=1, force=None, tx_dt=0):
     if delay // idle > 300:          # keep the number of idle loop iterations per attempt moderate (the model's ghost trace is quadratic)
         idle = delay // 300 + 1
     mgas = [r for r in reqs if r.op == 'mga']
-    rqs = [rng.choice(mgas) if (mgas and rng.random() < 0.12) else rng.choice(reqs) for _ in range(n_req)]
+    if rqs is None:
+        rqs = [rng.choice(mgas) if (mgas and rng.random() < 0.12) else rng.choice(reqs) for _ in range(n_req)]
     attempts = []
     plan = []
     others = sorted(set(r.cid for r in rqs))
@@ -322,7 +323,7 @@ def scenario(rng, reqs, kt, n_req=1, force=None, tx_dt=0):
                 foreign = [o for o in others if o not in rq.filt()]
                 for fr in frames:
                     data += Q.inert_traffic(rng, rq.filt(), foreign)
-                    if foreign and rng.random() < 0.5:
+                    if foreign and rng.random() < 0.6:
                         # a late / duplicate answer to ANOTHER request of this history (not an answer-class frame for this one)
                         oc, oi = rng.choice(foreign)
                         data += G.frame(oc, oi, bytes(rng.getrandbits(8) for _ in range(rng.choice([0, 4, 6, 28]))))
